@@ -11,7 +11,7 @@
    which have no model: those are observed by the ASan/UBSan streams of checks/c06.py. *)
 From Coq Require Import List NArith ZArith Arith Bool.
 From Iodine Require Import Generated.SrcConsts Base Codec Hostname DnsName DnsMsg Client
-     DecodeSafetyProofs DecodeSafetyMx DecodeSafetyAnswer DecodeTermination ClientStages
+     DecodeSafetyProofs DecodeSafetyMx DecodeSafetyAnswer DecodeTermination DecodeNul ClientStages
      ClientSafetyProofs ClientInvariant ClientUnmatched.
 Import ListNotations.
 
@@ -66,6 +66,23 @@ Proof.
         (conj dns_namedec_bound mx_namedec_loop_bound))))))))).
 Qed.
 Print Assumptions C06_decode_bounds.
+
+(* ------------------------------------------------------------------------------------------ *)
+(* C06_decoder_nul_fits: the base32/64/64u/128 decoders store a NUL behind the last decoded byte
+   ("*buf space should be at least 1 byte more than *buflen"), and read_dns_withq hands them its
+   scratch buffer data[64K] with capacity 64K (resp. what is left of it in the MX/SRV loop).  For
+   every datagram and every caller buffer of 1..64K bytes the decoded length + 1 stays within
+   64K, because dns_namedec yields at most (text length - 1) bytes. *)
+Theorem C06_decoder_nul_fits :
+  (forall outlen s n, (length (dns_namedec outlen s n) <= n - 1)%nat) /\
+  (forall buflen buf plen, (1 <= buflen)%nat -> (buflen <= buf64k)%nat ->
+     let r := dns_decode_answer buflen buf plen in
+     (0 < da_rv r)%Z ->
+     (length (dns_namedec buf64k (da_out r) (Z.to_nat (da_rv r))) + 1 <= buf64k)%nat /\
+     (length (mx_namedec_loop (S (Z.to_nat (da_rv r))) (da_out r) (Z.to_nat (da_rv r)) 0 buf64k []) + 1 <= buf64k)%nat) /\
+  N.of_nat buf64k = 65536%N.
+Proof. exact (conj dns_namedec_short (conj read_dns_nul_fits buf64k_val)). Qed.
+Print Assumptions C06_decoder_nul_fits.
 
 (* ------------------------------------------------------------------------------------------ *)
 (* C06_state_bounds: after ANY list of events (tun packets, datagrams of any content on the DNS
